@@ -2,6 +2,7 @@ package ledger
 
 import (
 	"encoding/json"
+	"errors"
 )
 
 type transactionRequestDto struct {
@@ -22,6 +23,9 @@ func (request *TransactionRequest) UnmarshalJSON(data []byte) error {
 	var dto *transactionRequestDto
 	if err := json.Unmarshal(data, &dto); err != nil {
 		return err
+	}
+	if dto == nil {
+		return errors.New("transaction request is null")
 	}
 	request.transaction = dto.Transaction
 	request.transactionBroadcasterTarget = dto.TransactionBroadcasterTarget
